@@ -50,6 +50,20 @@ CHECKS = {
             'deterministic simulation: simulated sockets with byte-level '
             'request faults and disconnects, response oracle + history '
             'oracle'),
+    'C04': ('wire', 'exploration',
+            'differential execution of seeded operation programs (all public '
+            'operation methods, valid and invalid arguments, generated '
+            'repositories, default-namespace settings) on the real HTTP/'
+            'CIM-XML client path against a simulated server versus the '
+            'direct object path; result, decoded-request and final-'
+            'repository equality',
+            'the server envelope (HTTP framing, IPARAMVALUE typing table, '
+            'response element choice) is a stub written from DSP0200; '
+            'normalisations n1 (None == DSP0201 default), n2 (server host '
+            'where HOST is mandatory), n3 (SCOPE ANY) are applied; objects '
+            'are sent with explicit qualifier flavors; no faults injected',
+            'deterministic simulation: simulated transport + simulated '
+            'server, differential oracle against a reference execution'),
 }
 
 ENGINES = [
